@@ -1,1 +1,2 @@
 import ArtGen.Kernels
+import ArtGen.Control
